@@ -931,9 +931,13 @@ def apply(op, w, stats):
             if rs is X:
                 raise Mismatch('not-a-new-object', '%s returned its operand' % dk, op='derive.' + dk)
             w.env[nm] = {'X': rs, 'D': rd if isinstance(rs, spmatrix) else +rs, 'sparse': isinstance(rs, spmatrix), 'mut': 0}
+            big = any(abs(v) > 1e9 for v in rd)       # beyond this the small-integer arithmetic is no longer exact
             if not isinstance(rs, spmatrix):
                 if rs.size != rd.size or list(rs) != list(matrix(rd, tc=rs.typecode)):
                     raise Mismatch('twin-differs', '%s: dense result differs from the dense computation' % dk, op='derive.' + dk)
+            if big:
+                check_world(w, 'derive.' + dk)
+                del w.env[nm]
         else:
             if isinstance(rd, matrix) or rs != rd:
                 raise Mismatch('twin-differs', '%s: scalar result %r, dense computation gives %r' % (dk, rs, rd), op='derive.' + dk)
